@@ -18,7 +18,7 @@ P_FIXED = {
     'numbers2': 'private _a = []; for "_i" from 1 to 12 do { _a pushBack (1 / _i) }; diag_log str _a; diag_log str (_a apply { _x * 1000 }); diag_log str [sqrt 2, pi, exp 1, 1e6 / 7];',
     'preproc': '#define CAT(a,b) a##b\n#define STR(a) #a\n#define TWICE(a) a a\ndiag_log str [__LINE__, CAT(1,2), STR(hello), __FILE__];\n#ifdef POLLUTED\ndiag_log "polluted define visible";\n#else\ndiag_log "clean";\n#endif\n#ifdef VH_Q_MACRO\ndiag_log "Q macro visible";\n#endif\ndiag_log str [__LINE__];',
     'vars': 'diag_log str [isNil "vh_shared", isNil "gq0", isNil "polluted"];\ndiag_log str [missionNamespace getVariable ["vh_shared", "unset"], uiNamespace getVariable ["vh_shared", "unset"], parsingNamespace getVariable ["vh_shared", "unset"], profileNamespace getVariable ["vh_shared", "unset"]];\nvh_shared = "mine"; diag_log str [vh_shared];\ndiag_log str [count (allVariables missionNamespace)];',
-    'config': 'diag_log str [isClass (configFile >> "Polluted"), isClass (configFile >> "CfgIso"), getNumber (configFile >> "CfgIso" >> "a"), getNumber (configFile >> "CfgIso" >> "Sub" >> "a"), getText (configFile >> "CfgIso" >> "Sub" >> "b"), getArray (configFile >> "CfgIso" >> "c")];\ndiag_log str [count configFile, configName (configFile select 0)];',
+    'config': 'diag_log str [isClass (configFile >> "Polluted"), isClass (configFile >> "CfgIso"), getNumber (configFile >> "CfgIso" >> "a"), getNumber (configFile >> "CfgIso" >> "Sub" >> "a"), getText (configFile >> "CfgIso" >> "Sub" >> "b"), getArray (configFile >> "CfgIso" >> "c")];\ndiag_log str [count configFile, configName (configFile select 0)];\ndiag_log str [configHierarchy (configFile >> "CfgIso" >> "Sub"), configHierarchy (configFile >> "CfgIso"), configName inheritsFrom (configFile >> "CfgIso" >> "Sub")];\ndiag_log str [isClass (configFile >> "CfgIso" >> "Sub" >> "nothere"), isNull (configFile >> "CfgIso" >> "nothere" >> "deeper")];',
     'hashmap': 'private _h = createHashMapFromArray [["a",1],["b",2],[3,4],[[1,2],5],[true,6],["zeta",7],["alpha",8]];\ndiag_log str [keys _h];\ndiag_log str _h;\nprivate _n = createHashMap; { _n set [_x, _forEachIndex] } forEach [1, 2, 3, 5, 8, 13, 21, 34, "alpha", "beta", "gamma", true, false, [1], [2,3]]; diag_log str [keys _n]; diag_log str _n;\n_h set ["c", 9]; _h deleteAt "a";\ndiag_log str [keys _h, count _h, "b" in _h];',
     'sorting': 'private _a = [5,3,9,1,7,3,8]; _a sort true; diag_log str _a;\nprivate _b = ["b","A","c","a","B"]; _b sort false; diag_log str _b;\ndiag_log str ([[3,"c"],[1,"a"],[2,"b"]] apply { _x select 1 });\ndiag_log str [toArray "hello", toString [72,105], "abc" find "c", [1,2,3] find 2];',
     'code': 'private _c = { private _x = 1 + 2 * 3; if (_x > 5) then { "big" } else { "small" } };\ndiag_log str _c;\ndiag_log str [call _c, typeName _c, typeName 1, typeName "", typeName [], typeName true, typeName configFile, typeName missionNamespace];',
@@ -67,7 +67,7 @@ def q_steps(name, full, vm=2):
     steps = [{'op': 'vm', 'vm': vm, 'ops': 'none' if name in Q_BARE else 'full' if full else 'basic', 'max_runtime_ms': 0, 'defines': [['POLLUTED', '1'], ['VH_Q_MACRO', '2']] if name == 'defines' else []}]
     if name == 'config':
         steps.append({'op': 'cfg', 'vm': vm, 'src': Q_CFG})
-        steps.append({'op': 'run', 'vm': vm, 'src': 'diag_log str [isClass (configFile >> "Polluted")]', 'path': '/vh/q.sqf'})
+        steps.append({'op': 'run', 'vm': vm, 'src': 'diag_log str [isClass (configFile >> "Polluted"), configHierarchy (configFile >> "Polluted"), configHierarchy (configFile >> "CfgIso" >> "Sub"), configHierarchy (configFile >> "CfgIso"), isClass (configFile >> "Polluted" >> "nothere"), isClass (configFile >> "CfgIso" >> "nothere"), isClass (configFile >> "CfgIso" >> "Sub" >> "nothere")]', 'path': '/vh/q.sqf'})
     else:
         if name == 'objects':
             steps.append({'op': 'cfg', 'vm': vm, 'src': 'class CfgVehicles { class Dummy { scope = 2; }; };'})
